@@ -234,7 +234,7 @@ def run(ctx):
         chk.trusted += ['rustc MIR printer', 'mirsym', 'z3', 'native replay binary built from /repo with feature verif']
     try:
         _symbolic()
-    except Inconclusive as e_:
+    except Exception as e_:
         # the native differential below still runs: it is the replay target for whatever the symbolic part could not encode
         ctx.inconclusive('encoder: %s' % e_)
     chk.discharge()
@@ -289,7 +289,7 @@ def run(ctx):
         finally:
             n.close()
         for c, o in zip(cmds, outs):
-            ok = ('insub=true' in o and 'equals_map_plus_map=true' in o and 'oncurve=true' in o)
+            ok = ('insub=true' in o and 'equals_map_plus_map=true' in o and 'oncurve=true' in o and 'equals_stage_composition=true' in o)
             if not ok:
                 native_fail.setdefault(c, {})[profile] = o
     chk.extra['native_replays'] = {'commands': len(cmds), 'profiles': ['dev', 'release'], 'failing': native_fail}
@@ -352,7 +352,7 @@ def replay(ctx, path):
         finally:
             n.close()
         for c, o in zip(cmds, outs):
-            ok = ('insub=true' in o and 'equals_map_plus_map=true' in o)
+            ok = ('insub=true' in o and 'equals_map_plus_map=true' in o and 'equals_stage_composition=true' in o)
             print(profile, c, '->', o)
             bad += 0 if ok else 1
     if bad:
